@@ -18,7 +18,11 @@ RULE = ('case = (prefetch_size 1..3, requested batch size 0..4, generator A of l
         'oracle: the concatenation of the answers for a generator is exactly its elements in order, each once, then exactly one '
         'terminal marker (StopIteration(ret), or the generator\'s exception after the elements produced before it); after a re-init '
         'has returned no answer contains an element of the old generator; after stop/shutdown answers end with a retriable '
-        'TimeoutError; no request blocks forever; non-trivial = batch size not dividing the length, a failure position > 0, or a '
+        'TimeoutError; no request blocks forever; concurrent_init: two init_generator requests overlap under generated '
+        'schedules (optionally over an earlier generator): the installed generator is delivered faithfully and no prefetch thread '
+        'of a superseded generator stays blocked; client_iteration: CourierClient.async_iterate against the real server over the '
+        'in-process transport yields exactly the elements, then the return value once or the generator\'s exception (type and '
+        'message, incl. messages the client loop compares against); non-trivial = batch size not dividing the length, a failure position > 0, or a '
         're-init before exhaustion; distinct = distinct canonical case JSON')
 ASSUMPTIONS = [
     'same scheduler trusted base as C04; handlers are invoked directly (the transport is exercised by C06/C14/C16)',
@@ -183,6 +187,169 @@ def run_case(case):
           'extra': {'scheduling_points': sch.steps, 'preemptions': sch.preemptions}}
 
 
+# ------------------------------------------------------------------------------------------------ overlapping initialisations
+def run_concurrent_init(case):
+  """Two init_generator requests overlap (an earlier generator may be in place): whichever generator ends up installed is
+  delivered faithfully, the other one is stopped - in every schedule all prefetch threads end once the client stops."""
+  from ml_metrics._src.chainables import courier_server, lazy_fns as lf  # pylint: disable=g-import-not-at-top
+  gens = {'E': case.get('gen_e'), 'A': case['gen_a'], 'B': case['gen_b']}
+  bs, pf = case['batch_size'], case['prefetch_size']
+  what = f'prefetch_size={pf} batch_size={bs} earlier={gens["E"]} concurrent A={gens["A"]} B={gens["B"]}'
+  log, info = [], {}
+
+  def lazy_gen(g, tag):
+    return lf.pickler.dumps(lf.trace(targets.gen_range)(g['n'], g['fail_at'], g['ret'], tag))
+
+  def main():
+    s = courier_server.PrefetchedCourierServer(f'pfc{next(_counter)}', prefetch_size=pf)
+    if gens['E'] is not None:
+      r = s._init_iterator(lazy_gen(gens['E'], 'E'))  # pylint: disable=protected-access
+      check(r is None, 'init-generator-failed', f'{what}: init returned {r!r}')
+      for _ in range(case.get('consume_e', 0)):
+        s._next_batch(bs)  # pylint: disable=protected-access
+    res = {}
+
+    def init(tag):
+      res[tag] = s._init_iterator(lazy_gen(gens[tag], tag))  # pylint: disable=protected-access
+    ths = [dsched.Thread(target=init, args=(t,), name=f'init{t}') for t in ('A', 'B')]
+    for t in ths:
+      t.start()
+    for t in ths:
+      t.join()
+    for t in ths:
+      if t.vt.exc is not None:
+        raise t.vt.exc
+    check(all(r is None for r in res.values()), 'init-generator-failed', f'{what}: inits returned {res!r}')
+    for _ in range(40):
+      batch = lf.pickler.loads(s._next_batch(bs))  # pylint: disable=protected-access
+      log.append(batch)
+      if batch and isinstance(batch[-1], Exception):
+        break
+    else:
+      raise Violation('no-terminal-marker', f'{what}: 40 requests without a terminal marker; log={log}')
+    s._stop_prefetch()  # pylint: disable=protected-access
+  try:
+    _, sch = dsched.run(main, case['schedule'], max_steps=60000)
+  except dsched.Deadlock as e:
+    raise Violation('superseded-generator-not-stopped', f'{what}: after the client stopped a thread is still blocked: {e}') from e
+  except dsched.StepBudget as e:
+    raise Inconclusive(str(e)) from e
+  except Violation:
+    raise
+  except Exception as e:  # pylint: disable=broad-exception-caught
+    raise crash(e, what) from e
+  flat = [x for b in log for x in b]
+  elems = [list(x) for x in flat if not isinstance(x, Exception)]
+  markers = [x for x in flat if isinstance(x, Exception)]
+  tags = {e[0] for e in elems}
+  check(len(tags) <= 1 and tags <= {'A', 'B'}, 'elements-of-two-generators-mixed', f'{what}: delivered {elems}')
+  check(len(markers) == 1, 'terminal-marker-count', f'{what}: {len(markers)} terminal markers; log={log}')
+  m = markers[0]
+  cands = [t for t in ('A', 'B') if not tags or t in tags]
+  ok = False
+  for t in cands:
+    g = gens[t]
+    upto = g['n'] if g['fail_at'] is None else min(g['fail_at'], g['n'])
+    want = [[t, i] for i in range(upto)]
+    if g['fail_at'] is not None and g['fail_at'] < g['n']:
+      mk = isinstance(m, KeyError) and f'fail at {g["fail_at"]}' in str(m)
+    else:
+      mk = isinstance(m, StopIteration) and m.value == g['ret']
+    ok = ok or (elems == want and mk)
+  check(ok, 'installed-generator-not-delivered-faithfully', f'{what}: delivered {elems} then {m!r}')
+  return {'nontrivial': True, 'classes': ['concurrent-init', f'prefetch-{pf}', f'sched-{case["schedule"]["mode"]}'] + (
+      ['earlier-generator'] if gens['E'] is not None else []), 'extra': {'scheduling_points': sch.steps, 'preemptions': sch.preemptions}}
+
+
+def strat_concurrent_init(tier):
+  gen = st.builds(lambda n, f, r: {'n': n, 'fail_at': f if f is not None and f <= n else None, 'ret': r},
+                  st.integers(0, 6), st.one_of(st.none(), st.none(), st.integers(0, 6)), st.sampled_from(['R', 7, None]))
+
+  @st.composite
+  def s(draw):
+    case = {'gen_a': draw(gen), 'gen_b': draw(gen), 'batch_size': draw(st.integers(0, 4)), 'prefetch_size': draw(st.integers(1, 3)),
+            'schedule': draw(schedule_strategy())}
+    if draw(st.booleans()):
+      case['gen_e'] = draw(gen)
+      case['consume_e'] = draw(st.integers(0, 3))
+    return case
+  return s()
+
+
+# ------------------------------------------------------------------------------------------------ the client side of the protocol
+def run_client_iteration(case):
+  """CourierClient.async_iterate against a real PrefetchedCourierServer over the in-process transport (real threads, asyncio):
+  the client yields exactly the generator's elements in order, then either hands the return value to the result queue or
+  raises the generator's exception (type and message) - it never keeps polling a generator that has failed."""
+  import asyncio  # pylint: disable=g-import-not-at-top
+  import queue  # pylint: disable=g-import-not-at-top
+  import threading  # pylint: disable=g-import-not-at-top
+  import time  # pylint: disable=g-import-not-at-top
+  import courier  # pylint: disable=g-import-not-at-top
+  from ml_metrics._src.chainables import courier_server, lazy_fns as lf  # pylint: disable=g-import-not-at-top
+  from ml_metrics._src.utils import courier_utils  # pylint: disable=g-import-not-at-top
+  courier.reset()
+  g = case['gen']
+  name = f'pfi{next(_counter)}'
+  what = f'async_iterate(iterate_batch_size={case["batch_size"]}) prefetch_size={case["prefetch_size"]} generator={g}'
+  server = courier_server.PrefetchedCourierServer(name, prefetch_size=case['prefetch_size'], timeout_secs=11000 + next(_counter))
+  server.start()
+  courier_utils.worker_registry().register(name, time.time())
+  client = courier_utils.CourierClient(name, call_timeout=5, iterate_batch_size=case['batch_size'])
+  task = courier_utils.GeneratorTask.new(lf.trace(targets.gen_failing_with)(g['n'], g['fail_at'], g['exc'], g['msg'], g['ret'], 'T'))
+  rq = queue.SimpleQueue()
+  got, box = [], {}
+
+  async def drive():
+    async for x in client.async_iterate(task, generator_result_queue=rq):
+      got.append(list(x))
+
+  def body():
+    try:
+      asyncio.run(drive())
+      box['end'] = ('done',)
+    except Exception as e:  # pylint: disable=broad-exception-caught
+      box['end'] = ('exc', type(e).__name__, str(e))
+  th = threading.Thread(target=body, daemon=True)
+  th.start()
+  th.join(10)
+  hung = th.is_alive()
+  server._request_shutdown()  # pylint: disable=protected-access
+  check(not hung, 'client-keeps-polling-a-finished-generator',
+        f'{what}: the client was still asking for batches after 10 s; delivered so far {got}')
+  fails = g['fail_at'] is not None
+  upto = min(g['fail_at'], g['n']) if fails else g['n']
+  check(got == [['T', i] for i in range(upto)], 'client-elements-differ', f'{what}: client yielded {got}')
+  if fails:
+    want = ('exc', g['exc'], str(targets.EXC[g['exc']](g['msg'])))
+    check(box['end'] == want, 'client-does-not-raise-the-generator-failure', f'{what}: client ended with {box["end"]!r}, want {want!r}')
+  else:
+    check(box['end'] == ('done',), 'client-raised-on-clean-exhaustion', f'{what}: {box["end"]!r}')
+    rets = []
+    while not rq.empty():
+      rets.append(rq.get())
+    check(rets == [g['ret']], 'return-value-not-delivered-once', f'{what}: result queue holds {rets!r}, want [{g["ret"]!r}]')
+  return {'nontrivial': fails or (case['batch_size'] and g['n'] % case['batch_size'] != 0),
+          'classes': ['client-iteration'] + (['generator-fails', f'exc-{g["exc"]}'] if fails else [])}
+
+
+def strat_client_iteration(tier):
+  @st.composite
+  def s(draw):
+    n = draw(st.integers(0, 6))
+    fail_at = draw(st.one_of(st.none(), st.integers(0, n)))
+    # messages incl. the interpreter's own wording for a re-entered generator, which the client loop compares against
+    g = {'n': n, 'fail_at': fail_at, 'exc': draw(st.sampled_from(['ValueError', 'KeyError', 'RuntimeError', 'TypeError'])),
+         'msg': draw(st.sampled_from(['boom', 'generator already executing', 'x y', ''])), 'ret': draw(st.sampled_from(['R', 7, None]))}
+    return {'gen': g, 'batch_size': draw(st.integers(1, 4)), 'prefetch_size': draw(st.integers(1, 3))}
+  return s()
+
+
+def setup_real():
+  from ml_metrics._src.chainables import courier_server  # pylint: disable=g-import-not-at-top
+  courier_server.CourierServer.__del__ = lambda self: None
+
+
 def strat(tier):
   gen = st.builds(lambda n, f, r: {'n': n, 'fail_at': f if f is not None and f <= n else None, 'ret': r},
                   st.integers(0, 6), st.one_of(st.none(), st.none(), st.integers(0, 6)), st.sampled_from(['R', 7, None]))
@@ -206,4 +373,8 @@ def strat(tier):
 SCENARIOS = [
     Scenario('prefetch_protocol', run_case, strategy=strat, setup=setup, budget={'quick': 3000, 'thorough': 80000},
              shards={'quick': 12, 'thorough': 16}),
+    Scenario('concurrent_init', run_concurrent_init, strategy=strat_concurrent_init, setup=setup, budget={'quick': 1500, 'thorough': 40000},
+             shards={'quick': 6, 'thorough': 16}),
+    Scenario('client_iteration', run_client_iteration, strategy=strat_client_iteration, setup=setup_real,
+             budget={'quick': 200, 'thorough': 3000}, shards={'quick': 4, 'thorough': 16}, nondeterministic=True),
 ]
